@@ -234,12 +234,72 @@ fn part(in_order: bool) -> HistPart<Mon, impl Fn(&Setup) -> Mon + Sync> {
     }
 }
 
+/// Every value of the 8-bit timer token x every kind of epoch change: after k earlier identity changes the
+/// instance becomes active with timers of every kind pending, then leaves / goes idle / changes identity /
+/// is told it is down; every timer issued before must be ignored afterwards.
+fn token_case(index: u64) -> Case {
+    let k = (index % 257) as usize;
+    let e = (index / 257) % 5;
+    let renew = if e == 4 { RENEW_NEXT } else { RENEW_NONE };
+    let mut ops = Vec::new();
+    for i in 0..k {
+        ops.push(Op::ChangeIdentity(IdSel::OwnAddr(5 + (i % 2) as u8), renew));
+    }
+    let gossip = |a: u8, members: Vec<MemberSpec>| {
+        Op::Data(DataSpec { src: IdSel::Abs(a, 0), inc: IncSel::Abs(0), dst: DstSel::Me, msg: MsgSel::Gossip, members: Some(members), items: vec![], mangle: Mangle::None })
+    };
+    ops.push(gossip(1, vec![]));
+    ops.push(gossip(2, vec![]));
+    // one unanswered probe round: Ping, PingReq, then Suspect + ChangeSuspectToDown, and the next round opened
+    ops.push(Op::FireNext);
+    ops.push(Op::FireNext);
+    ops.push(Op::FireNext);
+    let down = |a: u8| MemberSpec { id: IdSel::Abs(a, 0), inc: IncSel::Abs(0), state: 2 };
+    ops.push(match e {
+        0 => Op::Leave,
+        1 => Op::ApplyMany(vec![down(1), down(2)], true),
+        2 => Op::ChangeIdentity(IdSel::OwnAddr(9), renew),
+        _ => gossip(1, vec![MemberSpec { id: IdSel::Own, inc: IncSel::Abs(0), state: 2 }]),
+    });
+    for _ in 0..14 {
+        ops.push(Op::Fire(0));
+    }
+    Case {
+        setup: Setup {
+            own_gen: 1,
+            own_renew: renew,
+            cfg: CfgSpec {
+                notify_down: true,
+                periodic_announce: Some(Periodic { every_ms: 5000, num: 1 }),
+                periodic_announce_down: Some(Periodic { every_ms: 7000, num: 1 }),
+                periodic_gossip: Some(Periodic { every_ms: 400, num: 1 }),
+                ..CfgSpec::default()
+            },
+            codec: CodecKind::Fix,
+            rng_seed: index,
+            handler: crate::handler::HandlerSpec::OFF,
+        },
+        ops,
+    }
+}
+
 pub fn run(ctx: &Ctx, report: &mut Report) -> EvidenceMeta {
+    ctx.run_enum(
+        "epoch-change-at-every-token-value",
+        257 * 5,
+        token_case,
+        |c: &Case, out: &mut CaseOut| {
+            let mut m = Mon::new(false, c.setup.codec, &c.setup.cfg);
+            run_history(c, &mut m, out)
+        },
+        report,
+        true,
+    );
     ctx.run_part(&part(true), report);
     ctx.run_part(&part(false), report);
     EvidenceMeta {
         level: "exploration",
-        rule: "proptest random single-instance histories in which the harness is a runtime delivering every scheduled timer at most once (never twice, never invented): part 'deadline-order' always delivers the earliest deadline (ties by Timer's Ord), part 'any-order' any outstanding timer; interleaved with datagrams / API calls causing Idle, Active, Defunct, Rejoin, change_identity, reuse_down_identity, for all combinations of periodic tasks and set_config changes. Oracle after every call: timer token moves exactly with the notification-inferred epoch; active => exactly one ProbeRandomMember and one timer per enabled periodic task outstanding with the current token (<= 1 inert left-over for a task disabled by set_config); not active => no outstanding timer carries the current token; stale timers are Ok(()) with no effect and no state change; deadline order => no error; any order => at most IncompleteProbeCycle and probing resumed. Non-trivial: >= 2 epoch changes followed by a stale timer delivery, or set_config disabling a running task."
+        rule: "(0) complete enumeration: for each of the 257 possible numbers k of earlier identity changes (so the 8-bit token takes every value, including the wrap) and each of 5 epoch changes (leave, idle, change_identity, Defunct, Rejoin): become active with probe, indirect-probe, suspicion and all periodic timers pending, change epoch, then deliver every older timer; (1, 2) proptest random single-instance histories in which the harness is a runtime delivering every scheduled timer at most once (never twice, never invented): part 'deadline-order' always delivers the earliest deadline (ties by Timer's Ord), part 'any-order' any outstanding timer; interleaved with datagrams / API calls causing Idle, Active, Defunct, Rejoin, change_identity, reuse_down_identity, for all combinations of periodic tasks and set_config changes. Oracle after every call: timer token moves exactly with the notification-inferred epoch; active => exactly one ProbeRandomMember and one timer per enabled periodic task outstanding with the current token (<= 1 inert left-over for a task disabled by set_config); not active => no outstanding timer carries the current token; stale timers are Ok(()) with no effect and no state change; deadline order => no error; any order => at most IncompleteProbeCycle and probing resumed. Non-trivial: >= 2 epoch changes followed by a stale timer delivery, or set_config disabling a running task."
             .into(),
         assumptions: vec![
             "fewer than 256 epoch changes between issue and delivery (histories are <= 140 calls)".into(),
@@ -250,6 +310,11 @@ pub fn run(ctx: &Ctx, report: &mut Report) -> EvidenceMeta {
 
 pub fn replay(part_name: &str, case: &Value) -> Option<Result<(), Fail>> {
     match part_name {
+        "epoch-change-at-every-token-value" => Some((|| {
+            let c: Case = serde_json::from_value(case.clone()).map_err(|e| Fail::new("replay:bad-file", e.to_string()))?;
+            let mut m = Mon::new(false, c.setup.codec, &c.setup.cfg);
+            run_history(&c, &mut m, &mut CaseOut::default())
+        })()),
         "deadline-order" => Some(replay_with(&part(true), case)),
         "any-order" => Some(replay_with(&part(false), case)),
         _ => None,
